@@ -579,15 +579,31 @@ def courts_and_strings(payload):
         if s and ")" not in s and "(" not in s and not _re.search(r"\d{4}", s):
             cs.setdefault(_re.sub(r"[^\w]", "", s).lower(), {"string": s, "ids": []})["ids"].append(str(c["id"]))
     # a court string is usable when no OTHER court's normalised string equals it (exact match preferred by the lookup)
+    # which (string, edition) pairs admit the minimal form "12 <string> 345" is decided with
+    # reporters-db's OWN regex templates and variables (not through eyecite's extractors)
+    from string import Template
+    from reporters_db import RAW_REGEX_VARIABLES
+    from reporters_db.utils import process_variables, recursive_substitute
+    variables = process_variables(RAW_REGEX_VARIABLES)
+
+    def admits_minimal(templates, string):
+        for t in templates:
+            rx = Template(recursive_substitute(t, variables)).safe_substitute(edition=_re.escape(string))
+            try:
+                if _re.fullmatch(rx, f"12 {string} 345"):
+                    return True
+            except _re.error:
+                continue
+        return False
     reporters = []
     for key, cluster in REPORTERS.items():
         for src in cluster:
             for ename, ed in src["editions"].items():
                 plain = not ed.get("regexes")
-                reporters.append({"string": ename, "edition": ename, "plain": plain, "cite_type": src["cite_type"]})
-                for v, target in src["variations"].items():
-                    if target == ename:
-                        reporters.append({"string": v, "edition": ename, "plain": plain, "cite_type": src["cite_type"]})
+                tpls = ed.get("regexes") or ["$full_cite"]
+                for string in [ename] + [v for v, target in src["variations"].items() if target == ename]:
+                    reporters.append({"string": string, "edition": ename, "plain": plain, "cite_type": src["cite_type"],
+                                      "minimal": admits_minimal(tpls, string)})
     laws = [{"key": k, "examples": list(s.get("examples") or [])} for k, cl in LAWS.items() for s in cl]
     journals = [{"key": k, "plain": not s.get("regexes"), "variations": list(s.get("variations") or [])} for k, cl in JOURNALS.items() for s in cl]
     return {"courts": list(cs.values()), "reporters": reporters, "laws": laws, "journals": journals}
